@@ -23,6 +23,7 @@
   Model: Core/Farm.lean.  Lemmas: Lemmas/FarmCover.lean (on top of FarmAcct / FarmPos / FarmPot / FarmPool).
 -/
 import MxModel.Lemmas.FarmCover
+import MxModel.Lemmas.FarmWeekSafe
 
 namespace Mx.C05Cover
 open Mx.Farm
@@ -205,6 +206,66 @@ theorem no_underflow_full_false : ¬ no_underflow_full := by
     1 4 1000 (by decide) (by decide) (by decide) (by decide)
   revert h1
   decide
+
+/-! ### the hypothesis under which the weekly subtraction IS safe -/
+
+/-- **exactly when one week's reward computation aborts** (`get_user_rewards_for_week`; `mem` = the
+    config updated to the current week, `f` = the user's current total farm position, `e`/`E` = the
+    user's / the total energy of the week): the week is live and either its factors are out of the
+    ring's reach, or the user passes the minima and the frozen list is malformed / `cE + cF = 0` with
+    a non-empty pool / — the only arithmetic cause — the computed reward exceeds `remaining`. -/
+theorem weekly_sub_fails_iff (mem : BCfg) (f : Nat) (g : Weekly.St) (c : BSt) (week e E : Nat) :
+    boostedRewards mem f g c week e E = none ↔
+      (E ≠ 0 ∧ c.farmSupplyWeek week ≠ 0 ∧
+        (mem.factorsForWeek week = none ∨
+         ∃ fa, mem.factorsForWeek week = some fa ∧ fa.minE ≤ e ∧ fa.minF ≤ f ∧
+           let r := Weekly.collectAndGet (collectBoosted mem) g c week
+           ((∃ p q l, r.2.2 = p :: q :: l) ∨
+            ∃ tok R, r.2.2 = [(tok, R)] ∧ R ≠ 0 ∧
+              (fa.cE + fa.cF = 0 ∨
+               (boostedAmount fa R f (c.farmSupplyWeek week) e E ≠ 0 ∧
+                r.2.1.remaining week < boostedAmount fa R f (c.farmSupplyWeek week) e E))))) :=
+  boostedRewards_none_iff mem f g c week e E
+
+/-- a user whose total farm position is within the week's recorded supply (`f ≤ F`) and whose energy
+    is within the week's total (`e ≤ E`) is never paid more than the week's whole pool `R` — so the
+    FIRST payment out of a freshly frozen week (`remaining = R`) cannot underflow.
+    (`f ≤ F` is what fails in `weekly_pool_underflow_example`: `1001 > 1`.) -/
+theorem single_reward_le_pool (fa : Factors) (R f F e E : Nat) (hc : fa.cE + fa.cF ≠ 0)
+    (hf : f ≤ F) (he : e ≤ E) : boostedAmount fa R f F e E ≤ R :=
+  boostedAmount_le fa R f F e E hc hf he
+
+/-- **the precise hypothesis (`WeekBudget`) and its sufficiency.**  For a claimable week with
+    factors `fa`, frozen pool `R`, recorded supply `F ≠ 0`, total energy `E ≠ 0`, `paid` already paid
+    out of it (`remaining + paid = R`): if what was paid plus the un-floored shares
+    `R·(cE·e_v/E + cF·f_v/F)/(cE+cF)` of ALL users `v` who can still claim the week (`sumE = Σ e_v`,
+    `sumF = Σ f_v`, energies decayed to the week, CURRENT total farm positions) fits into `R`
+    (`WeekBudget`, stated cross-multiplied), then the claim of any one of them (`e ≤ sumE`,
+    `f ≤ sumF`) does not underflow `remaining`, and the budget holds again afterwards with that
+    user removed (so it is inductive along the claims of the week). -/
+theorem weekly_sub_safe_under_budget {fa : Factors} {R F E paid sumE sumF e f remaining : Nat}
+    (h : WeekBudget fa R F E paid sumE sumF) (he : e ≤ sumE) (hf : f ≤ sumF)
+    (hc : fa.cE + fa.cF ≠ 0) (hE : E ≠ 0) (hF : F ≠ 0) (hrem : remaining + paid = R) :
+    boostedAmount fa R f F e E ≤ remaining ∧
+    WeekBudget fa R F E (paid + boostedAmount fa R f F e E) (sumE - e) (sumF - f) :=
+  ⟨h.sub_ok he hf hc hE hF hrem, h.pay he hf⟩
+
+/-- the budget holds when the week is frozen (nothing paid) as soon as `Σ e_v ≤ E` (the weekly
+    module's energy bound, Lemmas/WeeklyHist.lean `EB`) and `Σ f_v ≤ F` (the claimers' current total
+    positions are within the supply recorded for that week), and it survives claimers dropping out or
+    shrinking.  `Σ f_v ≤ F` is the part the farm does NOT maintain in every reachable state: it
+    relies on every increase of `userTotalFarmPosition(v)` being preceded by a boosted claim that
+    moves `v`'s progress past the week, which `claim_boosted_yields_rewards` skips while no boosted
+    config exists. -/
+theorem week_budget_init_mono (fa : Factors) (R F E sumE sumF sumE' sumF' : Nat)
+    (hE : sumE ≤ E) (hF : sumF ≤ F) (hE' : sumE' ≤ sumE) (hF' : sumF' ≤ sumF) :
+    WeekBudget fa R F E 0 sumE sumF ∧ WeekBudget fa R F E 0 sumE' sumF' :=
+  ⟨WeekBudget.init fa R F E sumE sumF hE hF, (WeekBudget.init fa R F E sumE sumF hE hF).mono hE' hF'⟩
+
+/-- in the counter-example state the budget of week 1 is violated by user 1 alone (position 1001
+    against a recorded supply of 1) -/
+example : ¬ WeekBudget ⟨10, 3, 2, 1, 1⟩ 2500 1 1000000 0 1000000 1001 := by
+  unfold WeekBudget; decide
 
 /-- non-vacuity of the covering theorems: the corpus history f1 before the boosted claim — base
     budget spent (claimable 0), week 1's pool 2500 still in the reserve, and the hypotheses of
